@@ -302,3 +302,78 @@ func verifH_C18_suites() {
 }
 
 var _ = fasthttp.StatusOK
+
+func verifHexField(name string, present bool) string {
+	if !present {
+		return ""
+	}
+	s := verifString(name, 2)
+	for i := 0; i < 2; i++ {
+		c := s[i]
+		verifAssume(verifOr(verifAnd(c >= '0', c <= '9'), verifAnd(c >= 'a', c <= 'f')))
+	}
+	return s
+}
+
+// /ocra/generate and /ocra/validate: the library is called with the suite the request names or
+// describes, and with the five hex fields decoded into the corresponding five input fields
+//
+//verif:harness prop=C18 name=ocra
+//verif:cases quick op=0,1 raw=0,1 mask=0,2,31 
+//verif:cases thorough op=0,1 raw=0,1 mask=0..31
+//verif:replace github.com/ja7ad/otp.GenerateOCRA=verifStubAPI_GenerateOCRA
+//verif:replace github.com/ja7ad/otp.ValidateOCRA=verifStubAPI_ValidateOCRA
+//verif:opt maxpaths=4000
+func verifH_C18_ocra() {
+	secret := verifASCII("secret", 2)
+	verifAssume(!verifBlank(secret))
+	code := verifASCII("code", 2)
+	verifAssume(!verifBlank(code))
+	mask := verifCase("mask")
+	hin := &ocraInput{CounterHex: verifHexField("hc", mask&1 != 0), ChallengeHex: verifHexField("hq", mask&2 != 0), PasswordHex: verifHexField("hp", mask&4 != 0),
+		SessionInfoHex: verifHexField("hs", mask&8 != 0), TimestampHex: verifHexField("ht", mask&16 != 0)}
+	var rawName string
+	var sc *suiteConfig
+	var want otp.Suite
+	if verifCase("raw") == 1 {
+		rawName = "OCRA-1:HOTP-SHA256-8:C-QA10-PSHA256-S-T1"
+		s, err := otp.NewRawSuite(rawName)
+		verifAssume(err == nil)
+		want = s
+	} else {
+		sc = &suiteConfig{HashFunction: "SHA512", CodeDigits: verifInt("s.digits"), ChallengeFormat: verifInt("s.challenge"), IncludeCounter: verifBool("s.C"),
+			IncludeChallenge: verifBool("s.Q"), IncludePassword: verifBool("s.P"), IncludeSession: verifBool("s.S"), IncludeTimestamp: verifBool("s.T"),
+			PasswordHash: verifInt("s.ph"), Timestep: verifInt("s.ts")}
+		s, err := otp.NewSuite(otp.SuiteConfig{Hash: otp.SHA512, Digits: sc.CodeDigits, Challenge: otp.ChallengeFormat(sc.ChallengeFormat), IncludeCounter: sc.IncludeCounter,
+			IncludeChallenge: sc.IncludeChallenge, IncludePassword: sc.IncludePassword, IncludeSession: sc.IncludeSession, IncludeTimestamp: sc.IncludeTimestamp,
+			PasswordHash: otp.PasswordHashAlgorithm(sc.PasswordHash), TimeStep: sc.Timestep})
+		verifAssume(err == nil) // unusable structured suites are a 400 (status discipline: C19)
+		want = s
+	}
+	in, ierr := otp.HexInputToOCRA(hin.CounterHex, hin.ChallengeHex, hin.PasswordHex, hin.SessionInfoHex, hin.TimestampHex)
+	verifAssume(ierr == nil)
+	if verifCase("op") == 0 {
+		ctx := verifHTTP("POST", "/ocra/generate", "", "", ocraGenerateReq{Secret: secret, RawSuite: rawName, Suite: sc, Input: hin}, false)
+		routers(ctx)
+		var resp otpGenerateResp
+		got := verifHTTPResp(ctx, &resp)
+		wcode, werr := otp.GenerateOCRA(secret, want, in)
+		if werr != nil {
+			verifAssert(verifHTTPStatus(ctx) != 200, "library-error-is-not-a-success")
+			return
+		}
+		verifAssert(verifHTTPStatus(ctx) == 200, "success-status")
+		verifAssert(got, "response-is-a-generation-result")
+		verifAssert(verifStrEq(resp.Code, wcode), "code-is-the-library-result-for-the-request-fields")
+		verifAssert(resp.Suite == want.String(), "suite-name-echoed")
+	} else {
+		ctx := verifHTTP("POST", "/ocra/validate", "", "", ocraValidateReq{Secret: secret, Code: code, RawSuite: rawName, Suite: sc, Input: hin}, false)
+		routers(ctx)
+		var resp otpValidateResp
+		got := verifHTTPResp(ctx, &resp)
+		wok, _ := otp.ValidateOCRA(secret, code, want, in)
+		verifAssert(verifHTTPStatus(ctx) == 200, "success-status")
+		verifAssert(got, "response-is-a-validation-result")
+		verifAssert(resp.Valid == wok, "verdict-is-the-library-verdict-for-the-request-fields")
+	}
+}
